@@ -41,6 +41,7 @@ inductive Good (S : STy) : Val → Prop
   | arr (t : Ty) (es : List Val) : wf t = true → (∀ e ∈ es, sub e.asType t = true) → (∀ e ∈ es, Good S e) → Good S (.arr t es)
   | tup (es : List Val) : (∀ e ∈ es, Good S e) → Good S (.tup es)
   | cell (loc : Nat) (ty : Ty) : S[loc]? = some ty → wf ty = true → Good S (.cell loc ty)
+  | struct (fs : List (String × Val)) : nodupKeys (asTypeF fs) = true → (∀ p ∈ fs, Good S p.2) → Good S (.struct fs)
   | fn (id : Nat) (ps : List (String × Ty)) (rt : Ty) (body : List Expr) (cap : List (String × Val)) (self : Option String)
       (Γ : TEnv) : wfParams ps = true → wf rt = true → (∀ x t, Γ.lookup x = some t → wf t = true) →
       (∀ x t, Γ.lookup x = some t → ∃ v, frameLookup x cap = some v ∧ sub v.asType t = true) →
@@ -56,6 +57,7 @@ theorem good_mono {S S' : STy} (h : Ext S S') : ∀ {v : Val}, Good S v → Good
   | _, .arr t es w hs hg => .arr t es w hs (fun e he => good_mono h (hg e he))
   | _, .tup es hg => .tup es (fun e he => good_mono h (hg e he))
   | _, .cell loc ty hl w => .cell loc ty (ext_get h hl) w
+  | _, .struct fs hn hg => .struct fs hn (fun p hp => good_mono h (hg p hp))
   | _, .fn id ps rt body cap self Γ a b c d e f => .fn id ps rt body cap self Γ a b c d (fun x t v hx hv => good_mono h (e x t v hx hv)) f
 
 
@@ -68,6 +70,49 @@ theorem wfL_of_wfParams (ps : List (String × Ty)) (h : wfParams ps = true) : wf
     simp only [wfParams, List.all_cons, Bool.and_eq_true] at h
     simp only [List.map_cons, wfL, Bool.and_eq_true]
     exact ⟨h.1, ih (by simpa [wfParams] using h.2)⟩
+
+theorem valSizeF_mem {fs : List (String × Val)} {p : String × Val} (hp : p ∈ fs) : Val.size p.2 < Val.sizeF fs := by
+  induction fs with
+  | nil => cases hp
+  | cons q fs ih =>
+    obtain ⟨k, v⟩ := q
+    simp only [Val.sizeF]
+    rcases List.mem_cons.mp hp with rfl | hp
+    · simp only []; omega
+    · have := ih hp; omega
+
+/-- with distinct keys, looking a key up finds the entry itself -/
+theorem hasField_self : ∀ (fs : List (String × Val)) (k : String) (v : Val) (t : Ty),
+    nodupKeys (asTypeF fs) = true → (k, v) ∈ fs → Val.hasField fs k t = hasTy v t
+  | [], _, _, _, _, h => by cases h
+  | (k', v') :: fs, k, v, t, hn, h => by
+    simp only [asTypeF, nodupKeys, Bool.and_eq_true] at hn
+    rw [Val.hasField]
+    rcases List.mem_cons.mp h with he | ht
+    · cases he
+      simp
+    · have hne : (k == k') = false := by
+        cases hq : (k == k') with
+        | false => rfl
+        | true =>
+          have : k = k' := by simpa using hq
+          subst this
+          have hmem : (asTypeF fs).any (fun p => p.1 == k) = true := by
+            have : ∀ (l : List (String × Val)), (k, v) ∈ l → (asTypeF l).any (fun p => p.1 == k) = true := by
+              intro l
+              induction l with
+              | nil => intro h; cases h
+              | cons q l ih =>
+                intro h
+                obtain ⟨a, b⟩ := q
+                simp only [asTypeF, List.any_cons, Bool.or_eq_true]
+                rcases List.mem_cons.mp h with he | h2
+                · cases he; left; simp
+                · right; exact ih h2
+            exact this fs ht
+          simp [hmem] at hn
+      simp only [hne, Bool.false_eq_true, if_false]
+      exact hasField_self fs k v t hn.2 ht
 
 theorem good_facts : ∀ n : Nat, ∀ v : Val, Val.size v ≤ n → Good S v →
     okv v = true ∧ wf v.asType = true ∧ hasTy v v.asType = true := by
@@ -121,6 +166,44 @@ theorem good_facts : ∀ n : Nat, ∀ v : Val, Val.size v ≤ n → Good S v →
       refine ⟨by simp [okv], by simpa [asType, wf] using w, ?_⟩
       simp only [asType, hasTy]
       exact eqv_refl ty w
+    | struct fs hn hgood =>
+      simp only [Val.size] at hs
+      have hall : ∀ p ∈ fs, okv p.2 = true ∧ wf p.2.asType = true ∧ hasTy p.2 p.2.asType = true :=
+        fun p hp => ih p.2 (by have := valSizeF_mem hp; omega) (hgood p hp)
+      clear hs
+      refine ⟨?_, ?_, ?_⟩
+      · simp only [okv]
+        clear hn
+        induction fs with
+        | nil => simp [okvF]
+        | cons q fs ihe =>
+          obtain ⟨k, v⟩ := q
+          simp only [okvF, Bool.and_eq_true]
+          exact ⟨(hall (k, v) (by simp)).1, ihe (fun x hx => hgood x (by simp [hx])) (fun x hx => hall x (by simp [hx]))⟩
+      · simp only [asType, wf, Bool.and_eq_true]
+        refine ⟨?_, hn⟩
+        clear hn
+        induction fs with
+        | nil => simp [asTypeF, wfF]
+        | cons q fs ihe =>
+          obtain ⟨k, v⟩ := q
+          simp only [asTypeF, wfF, Bool.and_eq_true]
+          exact ⟨(hall (k, v) (by simp)).2.1, ihe (fun x hx => hgood x (by simp [hx])) (fun x hx => hall x (by simp [hx]))⟩
+      · rw [asType, hasTy_struct]
+        -- every field of the tag is found in the value itself
+        have key : ∀ (l : List (String × Val)), (∀ p ∈ l, p ∈ fs) → hasFields fs (asTypeF l) = true := by
+          intro l
+          induction l with
+          | nil => intro _; simp [asTypeF, hasFields]
+          | cons q l ihl =>
+            intro hsub
+            obtain ⟨k, v⟩ := q
+            rw [asTypeF, hasFields]
+            simp only [Bool.and_eq_true]
+            refine ⟨?_, ihl (fun p hp => hsub p (by simp [hp]))⟩
+            rw [hasField_self fs k v _ hn (hsub (k, v) (by simp))]
+            exact (hall (k, v) (hsub (k, v) (by simp))).2.2
+        exact key fs (fun p hp => hp)
     | fn id ps rt body cap self Γ wp wr _ _ _ _ =>
       have wft : wf (Val.fn id ps rt body cap self).asType = true := by
         simp only [asType, wf, Bool.and_eq_true]
